@@ -418,3 +418,7 @@ def run(ctx):
     retrieve_mastership(ctx, prog)
     expandrules.retrieve_obligations(ctx, prog, 'C10')
     expandrules.reorder_obligations(ctx, prog, 'C10', parts=('write', 'fatal'))
+    # a speculative task that keeps its work unit stalls the run: token conservation laws (shared with C11)
+    import conc
+    from props import c11
+    c11.r3(ctx, prog, conc.Analysis(prog), only_modes=('expan',), floor=10)
